@@ -54,12 +54,18 @@ structure Node where
   z : Src
   split : Split
   comb : List Key                -- combiner, dotted names (own fields dotted with the node's own name)
+  nested : Bool := false         -- the node is itself a workflow (`ia = Enc(tag, x, y, z); ib = Enc(tag, ia.out)`)
   deriving Repr, Inhabited
 
 def Node.src (nd : Node) : Fld → Src
   | .x => nd.x
   | .y => nd.y
   | .z => nd.z
+
+/-- What one job of the node returns: the encoder's `[tag, x, y, z]`; a nested-workflow node wraps it once more. -/
+def Node.encode (nd : Node) (vx vy vz : Val) : Val :=
+  if nd.nested then .list [.tag nd.name, .list [.tag nd.name, vx, vy, vz], .null, .null]
+  else .list [.tag nd.name, vx, vy, vz]
 
 structure Wf where
   nodes : List Node
